@@ -229,12 +229,30 @@ func (r *recorder) vnow() int64 {
 
 // tline appends one trace line (T mode); fields of extra (a map) are merged into the line.
 func (r *recorder) tline(m M, extra any) {
+	r.tlineF(func() M { return m }, extra)
+}
+
+// stableCounters reads the four shared counters until two consecutive reads agree (they are separate atomics).
+func stableCounters(a failsafe.ExecutionInfo) (att, exe, ret, hdg int) {
+	for i := 0; i < 100; i++ {
+		att, exe, ret, hdg = a.Attempts(), a.Executions(), a.Retries(), a.Hedges()
+		if att == a.Attempts() && exe == a.Executions() && ret == a.Retries() && hdg == a.Hedges() {
+			return
+		}
+	}
+	return
+}
+
+// tlineF builds the line inside the recorder's critical section, so that what the line reports (counters, flags, time)
+// is read at the position the line takes in the trace.
+func (r *recorder) tlineF(build func() M, extra any) {
+	r.mu.Lock()
+	m := build()
 	if em, ok := extra.(M); ok {
 		for k, v := range em {
 			m[k] = v
 		}
 	}
-	r.mu.Lock()
 	m["t"] = r.vnow()
 	r.lines = append(r.lines, m)
 	r.mu.Unlock()
@@ -274,8 +292,11 @@ func (r *recorder) add(e fsEvent) {
 
 func (r *recorder) attempt(name string, layer int, a failsafe.ExecutionAttempt[string], x any) {
 	if r.tmode {
-		r.tline(M{"ev": name, "x": xOf(a.Context()), "L": layer, "att": a.Attempts(), "exe": a.Executions(), "ret": a.Retries(), "hdg": a.Hedges(),
-			"lr": resName(a.LastResult()), "le": projectErr(a.LastError())}, x)
+		r.tlineF(func() M {
+			att, exe, ret, hdg := stableCounters(a)
+			return M{"ev": name, "x": xOf(a.Context()), "L": layer, "att": att, "exe": exe, "ret": ret, "hdg": hdg,
+				"lr": resName(a.LastResult()), "le": projectErr(a.LastError())}
+		}, x)
 		return
 	}
 	r.add(fsEvent{Ev: name, L: layer, Att: a.Attempts(), Exe: a.Executions(), Ret: a.Retries(), Hdg: a.Hedges(),
@@ -284,8 +305,11 @@ func (r *recorder) attempt(name string, layer int, a failsafe.ExecutionAttempt[s
 
 func (r *recorder) info(name string, layer int, a failsafe.ExecutionInfo, res string, err error, x any) {
 	if r.tmode {
-		r.tline(M{"ev": name, "x": xOf(a.Context()), "L": layer, "att": a.Attempts(), "exe": a.Executions(), "ret": a.Retries(), "hdg": a.Hedges(),
-			"lr": resName(res), "le": projectErr(err)}, x)
+		r.tlineF(func() M {
+			att, exe, ret, hdg := stableCounters(a)
+			return M{"ev": name, "x": xOf(a.Context()), "L": layer, "att": att, "exe": exe, "ret": ret, "hdg": hdg,
+				"lr": resName(res), "le": projectErr(err)}
+		}, x)
 		return
 	}
 	r.add(fsEvent{Ev: name, L: layer, Att: a.Attempts(), Exe: a.Executions(), Ret: a.Retries(), Hdg: a.Hedges(),
